@@ -47,7 +47,7 @@ def Tag.lub (a b : Tag) : Option Tag :=
 inductive Base where
   | bottom (top : Bool)               -- nothing; `top`: `p.paramsList` is empty as well
   | nodesBelow (p : Bool) (top : Bool)   -- one or more syntaxNodes and nothing else (`p`: the lowest is a `nodeP`)
-  | opaque                            -- an unknown rest R, with: R non-empty or `p.paramsList` empty
+  | rest                            -- an unknown rest R, with: R non-empty or `p.paramsList` empty
   deriving DecidableEq, Repr, Inhabited
 
 structure AState where
@@ -223,6 +223,30 @@ def applySum (pre post : List Tag) (A : AState) : Option AState :=
     else none
   | none => none
 
+/-- `C` is an invariant of a loop whose body has the abstract effect `chk`: the body maps `C`
+    into `C`, possibly after `absorb` -/
+def invOK (chk : AState → Option AState) (C : AState) : Bool :=
+  match chk C with
+  | some C' => C'.le C || (match C'.absorb with | some C'' => C''.le C | none => false)
+  | none => false
+
+/-- `e*`: look for an invariant that covers `A` — `A` itself, what one round of the body makes of it
+    (if that is above `A`), or `A` with its single node absorbed into the run of nodes below -/
+def starCheck (chk : AState → Option AState) (A : AState) : Option AState :=
+  let A1 := { A with capNE := false }
+  if invOK chk A1 then some A1 else
+  let widened : Option AState := match chk A1 with
+    | some A' =>
+      let A'' := { A' with capNE := false }
+      if A1.le A'' && invOK chk A'' then some A'' else none
+    | none => none
+  match widened with
+  | some r => some r
+  | none =>
+    match A1.absorb with
+    | some A2 => if invOK chk A2 then some A2 else none
+    | none => none
+
 /-- the checker: the abstract state after a successful match of `e` started in `A` -/
 def check (T : Tables) (g : Grammar) : Nat → PE → AState → Option AState
   | 0, _, _ => none
@@ -236,22 +260,7 @@ def check (T : Tables) (g : Grammar) : Nat → PE → AState → Option AState
       match check T g cf a A, check T g cf b A with
       | some A1, some A2 => A1.join A2
       | _, _ => none
-    | .star a =>
-      -- an invariant C with A ⊑ C (or C = absorb A) such that the body maps C into C (possibly after absorb)
-      let A1 := { A with capNE := false }
-      let inv (C : AState) : Bool := match check T g cf a C with
-        | some C' => C'.le C || (match C'.absorb with | some C'' => C''.le C | none => false)
-        | none => false
-      if inv A1 then some A1 else
-      let widened : Option AState := match check T g cf a A1 with
-        | some A' => if A1.le A' && inv A' then some A' else none
-        | none => none
-      match widened with
-      | some r => some r
-      | none =>
-        match A1.absorb with
-        | some A2 => if inv A2 then some A2 else none
-        | none => none
+    | .star a => starCheck (check T g cf a) A
     | .plus a => (check T g cf a A).bind (check T g cf (.star a))
     | .opt a =>
       let A1 := { A with capNE := false }
@@ -267,7 +276,7 @@ def check (T : Tables) (g : Grammar) : Nat → PE → AState → Option AState
 def initState : AState := { known := [], base := .bottom true, sv := none, capNE := false, rootSet := false }
 
 def polyState (known : List Tag) : AState :=
-  { known := known, base := .opaque, sv := none, capNE := false, rootSet := false }
+  { known := known, base := .rest, sv := none, capNE := false, rootSet := false }
 
 def checkFuel : Nat := 64
 
